@@ -484,8 +484,8 @@ def replay_c06(ctx, fl):
         ans = ctx.native.ask("with_file_mode", str(fl.get("st_mode", 0o100644) & 0o7777), str(fl.get("perm", 0)) if fl.get("explicit") else "-")
         return not ans.startswith("same"), "real crate: with_file over a source file chmod-ed to %o%s, then get_file_entries -> %s" % (
             fl.get("st_mode", 0) & 0o7777, (" with .mode(%o)" % (0o100000 | fl.get("perm", 0))) if fl.get("explicit") else "", ans[:100])
-    if fl.get("kind") in ("c06s", "c06d", "c06f", "c06c"):
-        which = {"c06s": "scriptlets_prog" if fl.get("with_prog") else "scriptlets_plain", "c06d": "deps", "c06f": "files", "c06c": "changelog"}[fl["kind"]]
+    if fl.get("kind") in ("c06s", "c06d", "c06f", "c06c", "c06m"):
+        which = {"c06s": "scriptlets_prog" if fl.get("with_prog") else "scriptlets_plain", "c06d": "deps", "c06f": "files", "c06c": "changelog", "c06m": "files_misc"}[fl["kind"]]
         ans = ctx.native.ask("readback2", which)
         return not ans.startswith("same"), "real crate: %s set through the public API and read back -> %s" % (which, ans[:160])
     ans = ctx.native.ask("readback", fl["field"], fl.get("value") or "-")
@@ -963,3 +963,78 @@ def c06_verify_script(ctx):
 
 
 HARNESSES["c06_verify_script"] = c06_verify_script
+
+
+def c06_files_misc(ctx):
+    """a symbolic link, a file with capabilities, a './'-style destination and a file directly under the root: link target, capabilities and the exact paths are read back"""
+    ex = Exec(ctx.funcs, intrinsics.I, max_steps=4000000)
+    ctx.stats = ex.stats
+    ctx.bounds = ("four files: /d/l (symbolic link, target of 2 symbolic letters), /d/c (capabilities cap_chown=ep), ./e/r ('./'-style destination), /t (directly under the root); one symbolic content byte each; "
+                  "get_file_entries: paths, link target, capabilities")
+
+    def setup(e):
+        return dict(link=sym_bytes(e, "lt", 2, 0x61, 0x7a), c=[z3.BitVec("content_%d" % i, 8) for i in range(4)])
+
+    def body(e, inp):
+        clock_stub(e)
+        b = builder_new(ctx, e)
+        b = e.call_fn(ctx.impl_fn("compression", None, "PackageBuilder"), [b, Adt("CompressionWithLevel", "None")])
+        cell = Cell(b)
+        specs = []
+        fo = file_options(b"/d/l")
+        fo.fields[3] = string(inp["link"])
+        fo.fields[4] = Adt("FileMode", "SymbolicLink", [Int(0o777, "u16")])
+        specs.append(fo)
+        fo = file_options(b"/d/c")
+        fo.fields[7] = intrinsics3.some(Adt("FileCaps", "FileCaps", [string(b"cap_chown=ep")]))
+        specs.append(fo)
+        specs.append(file_options(b"./e/r"))
+        specs.append(file_options(b"/t"))
+        for i, fo in enumerate(specs):
+            r = e.call_fn(ctx.impl_fn("add_data", None, "PackageBuilder"), [Ref(cell), VecV([Int(inp["c"][i], "u8")]), Adt("Timestamp", "Timestamp", [Int(5, "u32")]), fo])
+            assert r.variant == "Ok"
+        r = e.call_fn(ctx.impl_fn("build", None, "PackageBuilder"), [cell.v])
+        meta = r.fields[0].fields[0]
+        return r, e.call_fn(ctx.impl_fn("get_file_entries", None, "PackageMetadata"), [Ref(Cell(meta))])
+
+    def on_path(e, inp, out):
+        k_, v = out
+        if k_ != "return":
+            ctx.fail("building or reading back panics: %s" % (v,), "PackageBuilder::build", kind="c06m")
+            return
+        r, fes = v
+        ctx.cover("package built", r.variant == "Ok")
+        if fes.variant != "Ok" or len(fes.fields[0].items) != 4:
+            ctx.fail("get_file_entries() does not list the four files given to the builder", "PackageMetadata::get_file_entries", kind="c06m")
+            return
+        by_path = {}
+        for fe in fes.fields[0].items:
+            fe = intrinsics.deref_all(e, fe)
+            pb = intrinsics3._path_bytes(e, fe.fields[0])
+            raw = bytes(z3.simplify(x).as_long() for x in pb)
+            while b"//" in raw:                      # PathBuf equality is by components: "//t" and "/t" are the same path
+                raw = raw.replace(b"//", b"/")
+            by_path[raw] = fe
+        for want in (b"/d/l", b"/d/c", b"/e/r", b"/t"):
+            if want not in by_path:
+                ctx.fail("get_file_entries() does not return the destination %s (paths returned: %s)" % (want.decode(), sorted(p.decode() for p in by_path)), "PackageMetadata::get_file_entries", kind="c06m")
+                return
+        ln = by_path[b"/d/l"]
+        if ln.fields[1].variant != "SymbolicLink" or e._check(z3.Not(_eq_str(e, ln.fields[8], Str(inp["link"])))):
+            ctx.fail("get_file_entries() does not return the link target (or kind) of the symbolic link given to the builder", "PackageMetadata::get_file_entries", kind="c06m")
+            return
+        cp = by_path[b"/d/c"].fields[7]
+        if cp.variant != "Some" or e._check(z3.Not(_eq_str(e, cp.fields[0], Str.lit(b"cap_chown=ep")))):
+            ctx.fail("get_file_entries() does not return the capabilities given to the builder", "PackageMetadata::get_file_entries", kind="c06m")
+            return
+        for p_, fe in by_path.items():
+            if p_ != b"/d/c" and fe.fields[7].variant == "Some" and e._check(z3.Not(_eq_str(e, fe.fields[7].fields[0], Str.lit(b"")))):
+                ctx.fail("a file without capabilities is returned with capabilities", "PackageMetadata::get_file_entries", kind="c06m")
+                return
+            if p_ != b"/d/l" and e._check(z3.Not(_eq_str(e, fe.fields[8], Str.lit(b"")))):
+                ctx.fail("a file that is not a link is returned with a link target", "PackageMetadata::get_file_entries", kind="c06m")
+                return
+    ex.run_all(setup, body, on_path)
+
+
+HARNESSES["c06_files_misc"] = c06_files_misc
